@@ -127,7 +127,7 @@ namespace
                         });
             }
     // oceanic cooling models: straight ridge along x = xr (cartesian), spreading in +-x; distance = |x - xr|
-    for (double v : {0.03, 0.1}) for (double Tb : {1600.0, -1.0}) for (double Tt : {280.0, 1.0}) for (double L : {1e5, 1.5e5})
+    for (double v : {0.03, 0.1}) for (double Tb : {1600.0, -1.0}) for (double Tt : {280.0, 1.0, 2000.0 /* a top hotter than the bottom */}) for (double L : {1e5, 1.5e5})
             {
               const double xr = 2e5;
               const std::string ridge = ",\"spreading velocity\":" + num(v) + ",\"ridge coordinates\":[[[" + num(xr) + ",-1e6],[" + num(xr) + ",1e6]]]";
@@ -252,14 +252,14 @@ namespace
     for (unsigned f = 0; f < 3; ++f) for (int sph = 0; sph < 2; ++sph)
         {
           const std::vector<std::string> COPS = {"replace", "replace defined only", "add", "subtract"};
-          for (auto &op : COPS) for (unsigned comp = 0; comp < 3; ++comp)
+          for (auto &op : COPS) for (unsigned comp = 0; comp < 3; ++comp) for (int descending = 0; descending < 2; ++descending)
               {
-                // a mantle layer underneath paints compositions 0 and 1 with 0.4 / 0.5; the feature on top lists compositions 1 and 2 with fractions 0.25 / 0.75
-                Case c; c.family = "composition/uniform"; c.label = std::string(AREA[f]) + (sph ? ", spherical, " : ", cartesian, ") + op + ", composition " + std::to_string(comp);
+                // a mantle layer underneath paints compositions 0 and 1 with 0.4 / 0.5; the feature on top lists compositions 1 and 2 with fractions 0.25 / 0.75 (in either order of the list)
+                Case c; c.family = "composition/uniform"; c.label = std::string(AREA[f]) + (sph ? ", spherical, " : ", cartesian, ") + op + ", composition " + std::to_string(comp) + (descending ? ", list written [2,1]" : "");
                 c.spherical = sph;
                 const double s = sph ? 1.0 : 1e5;
                 const std::string under = "{\"model\":\"mantle layer\",\"name\":\"U\",\"coordinates\":" + pts({{-9*s,-9*s},{9*s,-9*s},{9*s,9*s},{-9*s,9*s}}) + ",\"composition models\":[{\"model\":\"uniform\",\"compositions\":[0,1],\"fractions\":[0.4,0.5]}]}";
-                c.world = world(globals(sph), {under, area_feature(f, sph, 2e4, "\"composition models\":[{\"model\":\"uniform\",\"compositions\":[1,2],\"fractions\":[0.25,0.75],\"operation\":\"" + op + "\",\"min depth\":5e4,\"max depth\":1.5e5}]")});
+                c.world = world(globals(sph), {under, area_feature(f, sph, 2e4, "\"composition models\":[{\"model\":\"uniform\"," + std::string(descending ? "\"compositions\":[2,1],\"fractions\":[0.75,0.25]" : "\"compositions\":[1,2],\"fractions\":[0.25,0.75]") + ",\"operation\":\"" + op + "\",\"min depth\":5e4,\"max depth\":1.5e5}]")});
                 c.probes = area_probes(sph, 2e4); c.request = {{{2,comp,0}}};
                 c.expect = [=](const Probe &p)
                 {
@@ -370,11 +370,11 @@ namespace
             c.expect = [=](const Probe &p) { Expect e; e.defined = true; e.value = inside(p) ? adiabat(tp < 0 ? G_TP : tp, G_ALPHA, 1000, p.depth) : background(p.depth); return e; };
             out.push_back(c);
           }
-        for (auto &op : std::vector<std::string>{"replace", "replace defined only", "add", "subtract"}) for (unsigned comp = 0; comp < 3; ++comp)
+        for (auto &op : std::vector<std::string>{"replace", "replace defined only", "add", "subtract"}) for (unsigned comp = 0; comp < 3; ++comp) for (int descending = 0; descending < 2; ++descending)
             {
-              Case c; c.family = "composition/line uniform"; c.label = std::string(fault ? "fault" : "subducting plate") + " uniform compositions [1,2] fractions [0.25,0.75] within distance [2e4,4e4] " + op + ", composition " + std::to_string(comp);
+              Case c; c.family = "composition/line uniform"; c.label = std::string(fault ? "fault" : "subducting plate") + " uniform compositions [1,2] fractions [0.25,0.75] within distance [2e4,4e4] " + op + ", composition " + std::to_string(comp) + (descending ? ", list written [2,1]" : "");
               const std::string under = "{\"model\":\"mantle layer\",\"name\":\"U\",\"coordinates\":[[-9e5,-9e5],[9e5,-9e5],[9e5,9e5],[-9e5,9e5]],\"composition models\":[{\"model\":\"uniform\",\"compositions\":[0,1],\"fractions\":[0.4,0.5]}]}";
-              c.world = world(globals(false), {under, feature("\"composition models\":[{\"model\":\"uniform\",\"compositions\":[1,2],\"fractions\":[0.25,0.75],\"operation\":\"" + op + "\",\"min distance " + dist + "\":2e4,\"max distance " + dist + "\":4e4}]")});
+              c.world = world(globals(false), {under, feature("\"composition models\":[{\"model\":\"uniform\"," + std::string(descending ? "\"compositions\":[2,1],\"fractions\":[0.75,0.25]" : "\"compositions\":[1,2],\"fractions\":[0.25,0.75]") + ",\"operation\":\"" + op + "\",\"min distance " + dist + "\":2e4,\"max distance " + dist + "\":4e4}]")});
               c.probes = pr; c.request = {{{2,comp,0}}};
               c.expect = [=](const Probe &p)
               {
@@ -390,6 +390,37 @@ namespace
               c.rel_tol = 1e-15; c.abs_tol = 1e-15;
               out.push_back(c);
             }
+        if (!fault)
+          {
+            // a slab that starts above its top surface ('top truncation' -3e4: the body reaches x = +3e4): models whose distance range lies above the top, straddles it, or lies below it
+            auto above = [&](const std::string &models)
+            { return std::string("{\"model\":\"subducting plate\",\"name\":\"F\",\"coordinates\":[[0,-4e5],[0,4e5]],\"dip point\":[5e6,0],\"segments\":[{\"length\":3e5,\"thickness\":[1e5],\"top truncation\":[-3e4],\"angle\":[90]}],") + models + "}"; };
+            std::vector<Probe> pa;
+            for (double x : {4e4, 2.5e4, 1.5e4, 0.7e4, 1e3, -1e3, -0.7e4, -1.5e4, -2.5e4, -6e4}) for (double d : {1e4, 1e5, 2.5e5}) pa.push_back({x, 2.5e5 * (d == 1e5), d});
+            const double RG[3][2] = {{-2e4, -1e4}, {-2e4, 1e4}, {0, 2e4}};
+            for (int r = 0; r < 3; ++r) for (int kind = 0; kind < 4; ++kind)
+                {
+                  const double lo = RG[r][0], hi = RG[r][1];
+                  const std::string rj = ",\"min distance slab top\":" + num(lo) + ",\"max distance slab top\":" + num(hi) + "}]";
+                  Case c; c.label = "subducting plate with top truncation -3e4, model range [" + num(lo) + "," + num(hi) + "] from the slab top";
+                  double in_value = 0;
+                  if (kind == 0) { c.family = "temperature/line uniform above the slab top"; c.world = world(globals(false), {above("\"temperature models\":[{\"model\":\"uniform\",\"temperature\":900" + rj)}); c.request = {{{1,0,0}}}; in_value = 900; }
+                  if (kind == 1) { c.family = "composition/line uniform above the slab top"; c.world = world(globals(false), {above("\"composition models\":[{\"model\":\"uniform\",\"compositions\":[1],\"fractions\":[0.75]" + rj)}); c.request = {{{2,1,0}}}; in_value = 0.75; }
+                  if (kind == 2) { c.family = "grains/line uniform above the slab top"; c.world = world(globals(false), {above("\"grains models\":[{\"model\":\"uniform\",\"compositions\":[0],\"Euler angles z-x-z\":[[0,0,0]],\"grain sizes\":[0.25]" + rj)}); c.request = {{{3,0,1}}}; in_value = 0.25; }
+                  if (kind == 3) { c.family = "velocity/line uniform raw above the slab top"; c.world = world(globals(false), {above("\"velocity models\":[{\"model\":\"uniform raw\",\"velocity\":[0.011,-0.022,0.033]" + rj)}); c.request = {{{5,0,0}}}; in_value = 0.011; }
+                  c.probes = pa;
+                  c.expect = [=](const Probe &p)
+                  {
+                    Expect e; e.defined = true;
+                    const double d = -p.x;   // distance below the slab top
+                    const bool in_body = p.x <= 3e4 - 1 && p.x >= -1e5 + 1, in_range = d >= lo && d <= hi;
+                    if (std::fabs(std::fabs(p.x) - 3e4) < 2 || std::fabs(d - lo) < 1 || std::fabs(d - hi) < 1) { e.defined = false; return e; }
+                    e.value = (in_body && in_range) ? static_cast<LD>(in_value) : (kind == 0 ? background(p.depth) : 0.0L);
+                    return e;
+                  };
+                  out.push_back(c);
+                }
+          }
         {
           // smooth composition: the first fraction at the top / centre, the second one at the far side, tanh transition over the given distance
           const double D = fault ? 4e4 : 8e4;
